@@ -164,6 +164,14 @@ func TestC19(t *testing.T) {
 			os.Symlink("loop.bn", filepath.Join(dir, "loop.bn"))
 			os.Symlink("nowhere.bn", filepath.Join(dir, "dangling.bn"))
 			os.Symlink("ok.bn", filepath.Join(dir, "link.bn"))
+			// a path is taken as the operating system takes it: ".." after a component that is missing, that is a plain
+			// file, or that is a link elsewhere does not lead back to the script
+			os.MkdirAll(filepath.Join(dir, "elsewhere", "deep"), 0o755)
+			os.Symlink(filepath.Join("elsewhere", "deep"), filepath.Join(dir, "linkdir"))
+			for _, a := range []string{"nodir/../ok.bn", "plain.bn/../ok.bn", "linkdir/../ok.bn", "nodir/../../" + filepath.Base(dir) + "/ok.bn", "./nodir/./../ok.bn", "ok.bn/../ok.bn", "ok.bn/.", "nodir//..//ok.bn"} {
+				chk("dotdot-"+a[:min(len(a), 24)], []string{a}, nonzero, false, "a script path that the operating system cannot resolve must exit non-zero with a message and run nothing")
+			}
+			chk("dotdot-real", []string{"elsewhere/../ok.bn"}, is(0), true, "a script reached through an existing directory and .. must run")
 			for _, a := range []string{"plain.bn/inner.bn", "loop.bn", "dangling.bn", strings.Repeat("a", 300) + ".bn", "nodir/x.bn", "ok.bn/", "/proc/self/mem.bn", "/dev/null/x.bn", "\x00.bn"} {
 				chk("unreadable-"+a[:min(len(a), 24)], []string{a}, nonzero, false, "a script that cannot be read must exit non-zero with a message and run nothing")
 			}
